@@ -712,15 +712,14 @@ fn main() {
     ev.set_extra("regression_sources", json!(n_regress));
     ev.set_extra("corpus_accepted", json!(accepted));
 
-    // probes for KNOWN findings (each with its own signature, so that the `known` line in
-    // known_findings.jsonl silences exactly this program and nothing else of its kind): the program
-    // is not part of the corpus or the generator's language until the repair has landed; once it no
-    // longer compiles, or certifies, the probe is silent and the line can become `fixed`
+    // must-reject probes: programs whose ACCEPTANCE was a defect, repaired by a compile error. If
+    // one compiles again it is certified like any program, with its own signature.
+    //   tail-call-in-tuple-field: fixed 9828b30 (b-c02's 08b)
     for (name, text) in [
         ("tail-call-in-tuple-field", "f = #'int { | =0 => 0 | [1, [~, 1] __integer_subtract__ ^] },\n3 f"),
     ] {
         match compile_source(text, &HashMap::new(), &cx.b) {
-            Err(_) => ev.hit(&format!("probe:{name}:no-longer-compiles")),
+            Err(_) => ev.hit(&format!("probe:{name}:rejected-by-the-compiler")),
             Ok(unit) => {
                 let bc = unit.program.to_bytecode(Some(unit.entry));
                 let t = tables_of(&bc);
@@ -730,7 +729,7 @@ fn main() {
                     Some((f, pc, why)) => {
                         let kind = why.split(|ch: char| ch == ' ' || ch == ':').next().unwrap_or("rejected").to_string();
                         ev.violation(&format!("probe={name} kind={kind}"),
-                            &format!("checkAnn rejects function {f} at pc {pc} ({why}) of the known-finding probe {name}"),
+                            &format!("the must-reject probe {name} compiles again and checkAnn rejects its function {f} at pc {pc} ({why})"),
                             json!({"broken": "certification by the verified checker", "probe": name, "source": text, "function": f, "pc": pc, "reason": why}), false);
                     }
                 }
